@@ -17,8 +17,9 @@ import (
 const pebblePath = "github.com/cockroachdb/pebble"
 
 type kvSlot struct {
-	key StringVal
-	val StringVal
+	key   StringVal
+	val   StringVal
+	older []StringVal // values this key held before, overwritten by Set without an intervening Delete (what a SingleDelete can bring back)
 }
 
 type batchOp struct {
@@ -30,6 +31,7 @@ type batchOp struct {
 type PebbleDB struct {
 	slots    []kvSlot // current (volatile) view
 	durable  []kvSlot // what survives a crash
+	ghosts   []kvSlot // older values brought back by SingleDelete once the memtable is gone (see commit)
 	commits  int
 	closed   bool
 	readOnly bool
@@ -134,11 +136,18 @@ func applyOps(p *Path, slots []kvSlot, ops []batchOp) []kvSlot {
 		switch op.kind {
 		case 0:
 			if i := slotFind(p, out, op.key); i >= 0 {
-				out[i] = kvSlot{key: op.key, val: op.val}
+				out[i] = kvSlot{key: op.key, val: op.val, older: append(append([]StringVal(nil), out[i].older...), out[i].val)}
 			} else {
 				out = append(out, kvSlot{key: op.key, val: op.val})
 			}
 		case 1:
+			if i := slotFind(p, out, op.key); i >= 0 {
+				out = append(append([]kvSlot(nil), out[:i]...), out[i+1:]...)
+			}
+		case 3:
+			// SingleDelete: for readers of the live database it behaves like Delete (the tombstone shadows
+			// every older version while it sits in the memtable); what it does to the durable state is
+			// handled in commit (ghosts)
 			if i := slotFind(p, out, op.key); i >= 0 {
 				out = append(append([]kvSlot(nil), out[:i]...), out[i+1:]...)
 			}
@@ -169,9 +178,39 @@ func (db *PebbleDB) commitPoint(in *Interp, p *Path) {
 
 func (db *PebbleDB) commit(in *Interp, p *Path, ops []batchOp, sync bool) {
 	db.commitPoint(in, p)
-	db.slots = applyOps(p, db.slots, ops)
+	// SingleDelete cancels only the most recent Set of a key. If the key had been Set more than once
+	// without a Delete in between, the older value resurfaces once tombstone and newest Set have been
+	// flushed/compacted away - i.e. in the state found after a restart. Such values are kept as
+	// ghosts and become part of the durable state (not of the live view).
+	cur := db.slots
+	for _, op := range ops {
+		switch op.kind {
+		case 3:
+			if i := slotFind(p, cur, op.key); i >= 0 {
+				if n := len(cur[i].older); n > 0 {
+					db.ghosts = append(db.ghosts, kvSlot{key: cur[i].key, val: cur[i].older[n-1]})
+				}
+			}
+		case 0, 1:
+			// a later Set or Delete of the key shadows the ghost for good
+			var keep []kvSlot
+			for _, g := range db.ghosts {
+				if !p.branch(p.strEq(g.key, op.key)) {
+					keep = append(keep, g)
+				}
+			}
+			db.ghosts = keep
+		}
+		cur = applyOps(p, cur, []batchOp{op})
+	}
+	db.slots = cur
 	if sync {
 		db.durable = cloneSlots(db.slots)
+		for _, g := range db.ghosts {
+			if slotFind(p, db.durable, g.key) < 0 {
+				db.durable = append(db.durable, g)
+			}
+		}
 	}
 }
 
@@ -301,6 +340,17 @@ func registerPebbleModel(in *Interp) {
 	I[name("Batch", "Delete")] = func(in *Interp, p *Path, fr *Frame, a []Val, s ssa.CallInstruction) Val {
 		b := batchOf(p, a[0])
 		b.ops = append(b.ops, batchOp{kind: 1, key: toKey(p, in, a[1])})
+		return IfaceVal{}
+	}
+	I[name("Batch", "SingleDelete")] = func(in *Interp, p *Path, fr *Frame, a []Val, s ssa.CallInstruction) Val {
+		b := batchOf(p, a[0])
+		b.ops = append(b.ops, batchOp{kind: 3, key: toKey(p, in, a[1])})
+		return IfaceVal{}
+	}
+	I[name("DB", "SingleDelete")] = func(in *Interp, p *Path, fr *Frame, a []Val, s ssa.CallInstruction) Val {
+		in.interferencePoint(p, fr, "db.SingleDelete")
+		db := dbOf(p, a[0])
+		db.commit(in, p, []batchOp{{kind: 3, key: toKey(p, in, a[1])}}, isSyncOpt(a[2]))
 		return IfaceVal{}
 	}
 	I[name("Batch", "DeleteRange")] = func(in *Interp, p *Path, fr *Frame, a []Val, s ssa.CallInstruction) Val {
@@ -550,6 +600,13 @@ func init() {
 			m := db.model.(*PebbleDB)
 			if p.stubs["crash.hit"] != nil || p.branch(asTerm(a[1])) {
 				m.slots = cloneSlots(m.durable) // unsynced commits do not survive
+			} else {
+				// a clean restart flushes the memtable as well: values cancelled only by SingleDelete resurface
+				for _, g := range m.ghosts {
+					if slotFind(p, m.slots, g.key) < 0 {
+						m.slots = append(m.slots, g)
+					}
+				}
 			}
 		}
 		return nil
